@@ -736,6 +736,18 @@ class StoreModel:
                     self.publishers.append((f, n._parent.value.id))
         if self.field is None:
             raise AnalysisError('anchor vanished: no function publishes a clause list into a predicates store')
+        # wrappers: a function that hands one of its own parameters straight to a publisher publishes it as well
+        changed = True
+        while changed:
+            changed = False
+            for f in em.repo.all_functions(('engine',)):
+                for c, cs in em.cg.calls.get(f, ()):
+                    for pf, pname in list(self.publishers):
+                        if pf in cs and pf is not f:
+                            a = arg_for_param(c, pf, pname)
+                            if isinstance(a, ast.Name) and a.id in f.params and (f, a.id) not in self.publishers:
+                                self.publishers.append((f, a.id))
+                                changed = True
         for f in em.repo.all_functions(('engine',)):
             for n in own_nodes(f.node):
                 if isinstance(n, ast.Return) and n.value is not None and self._is_store_read(n.value):
@@ -932,6 +944,59 @@ def rule_no_read_yield_write(em, rep, rid, sm=None):
     rep.minimum('publish sites inside generators', n, 1)
 
 
+def _is_derived_reader_call(em, sm, f, x, depth=0):
+    """a call of a plain helper every result of which is None or computed from a store read made inside the helper (a
+    "current list without this clause" helper): its result is as fresh as the call"""
+    if not isinstance(x, ast.Call) or depth > 2:
+        return False
+    cs = [c for c in em.cg.resolve_callable(f, x.func) if c.module.name == 'engine']
+    if not cs:
+        return False
+    for g in cs:
+        if g.is_generator or g is f:
+            return False
+        rets = [n for n in own_nodes(g.node) if isinstance(n, ast.Return)]
+        vals = [n.value for n in rets if n.value is not None and not (isinstance(n.value, ast.Constant) and n.value.value is None)]
+        if not vals or not all(_source_reads(em, sm, g, v, depth + 1) for v in vals):
+            return False
+    return True
+
+
+def _presence_filter_call(em, f, call, loopvars):
+    """``g(.., clause, ..)`` where g returns something other than None only under a test that its parameter for ``clause``
+    is (still) among what it read - so ``result is not None`` is a presence test on the clause"""
+    cs = [c for c in em.cg.resolve_callable(f, call.func) if c.module.name == 'engine']
+    if not cs:
+        return False
+    for g in cs:
+        if g.is_generator or g is f:
+            return False
+        qs = [q for q in (g.params[1:] if g.is_method else g.params) if is_name(arg_for_param(call, g, q)) and arg_for_param(call, g, q).id in loopvars]
+        if not qs:
+            return False
+        rets = [n for n in own_nodes(g.node) if isinstance(n, ast.Return)]
+        some = [n for n in rets if n.value is not None and not (isinstance(n.value, ast.Constant) and n.value.value is None)]
+        if not some or len(some) == len(rets) and not _falls_off(g):
+            return False
+        for n in some:
+            guarded = False
+            for p in parents(n):
+                if isinstance(p, (ast.FunctionDef, ast.Lambda)):
+                    break
+                if isinstance(p, ast.If) and any(is_name(y) and y.id in qs for y in ast.walk(p.test)) and \
+                        (' in ' in norm(p.test) or ' is ' in norm(p.test)) and ' not in ' not in norm(p.test) and ' is not ' not in norm(p.test) and \
+                        any(n is b or any(n is y for y in ast.walk(b)) for b in p.body):
+                    guarded = True
+            if not guarded:
+                return False
+    return True
+
+
+def _falls_off(g):
+    last = g.node.body[-1]
+    return not isinstance(last, (ast.Return, ast.Raise))
+
+
 def _source_reads(em, sm, f, a, depth=0):
     """CFG nodes of reader calls whose result flows (through local assignments) into expression a"""
     cfg = em.cfg(f)
@@ -939,7 +1004,7 @@ def _source_reads(em, sm, f, a, depth=0):
     if a is None or depth > 4:
         return out
     for x in ast.walk(a):
-        if isinstance(x, (ast.Call, ast.Subscript)) and sm.is_reader_call(f, x):
+        if isinstance(x, (ast.Call, ast.Subscript)) and (sm.is_reader_call(f, x) or _is_derived_reader_call(em, sm, f, x, depth)):
             for n in em.nodes_for(f, x):
                 out.add(n)
         if isinstance(x, ast.Name) and isinstance(x.ctx, ast.Load):
@@ -1036,6 +1101,16 @@ def rule_remove_by_identity(em, rep, rid, sm=None):
                     return any(is_name(x) and x.id in loopvars for x in ast.walk(e)) and \
                         (' in ' in norm(e) or ' is ' in norm(e) or 'index' in norm(e))
                 guards = [t for t in dom[p_] if t.kind == 'test' and presence_test(t.ast)]
+                if not guards:
+                    # ``x = helper(.., clause); if x is not None:`` where the helper returns a value only when the clause is present
+                    for t in dom[p_]:
+                        e = t.ast if t.kind == 'test' else None
+                        if isinstance(e, ast.Compare) and len(e.ops) == 1 and isinstance(e.ops[0], ast.IsNot) and is_name(e.left) and \
+                                isinstance(e.comparators[0], ast.Constant) and e.comparators[0].value is None:
+                            sets = [s_ for s_ in own_nodes(f.node) if isinstance(s_, ast.Assign) and any(is_name(tg, e.left.id) for tg in s_.targets)]
+                            if sets and all(isinstance(s_.value, ast.Call) and _presence_filter_call(em, f, s_.value, loopvars) for s_ in sets):
+                                # the true branch must be the one that leads to the publish
+                                guards.append(t)
                 if not guards:
                     # a flag that is set only under such a test (found = False; for c in fresh: if c is clause: found = True)
                     for t in dom[p_]:
